@@ -95,3 +95,64 @@ package cpuevict
 //@   let byprio = pa != nil && pb != nil && deref(pa) != deref(pb)
 //@   ensures #order: result <==> (a.EvictionPriority != b.EvictionPriority ? a.EvictionPriority < b.EvictionPriority : (byprio ? deref(pa) < deref(pb) : a.CpuUsage > b.CpuUsage))
 //@   modifies nothing
+
+// ---- what a victim is credited with: the per-pod resource closures handed to the eviction loop ----
+// The eviction loop stops as soon as the credited amounts cover the shortfall, so a credit that is too small evicts more
+// pods than needed. BECPUEvict credits the sum of the positive batch-cpu (milli) REQUESTS of the pod's containers and
+// sidecar init containers (never the limit, which is -1 when unset).
+//@ spec func amountOf(present bool, q resource.Quantity) int64 = present ? q.Value() : 0 - 1
+//@ opaque amountOf
+//@ spec func batchReq(c corev1.Container) int64 = amountOf(has(c.Resources.Requests, apiext.BatchCPU), val(c.Resources.Requests, apiext.BatchCPU))
+//@ spec func isSidecar(c corev1.Container) bool = c.RestartPolicy != nil && deref(c.RestartPolicy) == corev1.ContainerRestartPolicyAlways
+//@ spec func noSidecar(s []corev1.Container, n int) bool = forall k int :: {s[k].RestartPolicy} 0 <= k && k < n ==> !isSidecar(s[k])
+//@ func (*cpuEvictor).calculateMilliReleaseByBESatisfaction$1 [C11]
+//@   let cs = podInfo.Pod.Spec.Containers
+//@   let ics = podInfo.Pod.Spec.InitContainers
+//@   ensures #shape: result != nil && fresh(result) && has(result, apiext.BatchCPU)
+//@   ensures #only: forall n corev1.ResourceName :: {has(result, n)} has(result, n) ==> n == apiext.BatchCPU
+//@   ensures #nonneg: val(result, apiext.BatchCPU) >= 0
+//@   ensures #none: len(cs) == 0 && len(ics) == 0 ==> val(result, apiext.BatchCPU) == 0
+//@   ensures #one: len(cs) == 1 && len(ics) == 0 ==> val(result, apiext.BatchCPU) == max0(batchReq(cs[0]))
+//@   ensures #two: len(cs) == 2 && len(ics) == 0 ==> val(result, apiext.BatchCPU) == max0(batchReq(cs[0])) + max0(batchReq(cs[1]))
+//@   ensures #initonly: noSidecar(ics, len(ics)) ==> (len(cs) == 0 ==> val(result, apiext.BatchCPU) == 0) && (len(cs) == 1 ==> val(result, apiext.BatchCPU) == max0(batchReq(cs[0]))) && (len(cs) == 2 ==> val(result, apiext.BatchCPU) == max0(batchReq(cs[0])) + max0(batchReq(cs[1])))      // init containers that are not sidecars count for nothing
+//@   ensures #atleast: forall k int :: {cs[k].Resources.Requests} 0 <= k && k < len(cs) ==> val(result, apiext.BatchCPU) >= max0(batchReq(cs[k]))
+//@   ensures #atleastsidecar: forall k int :: {ics[k].Resources.Requests} 0 <= k && k < len(ics) && isSidecar(ics[k]) ==> val(result, apiext.BatchCPU) >= max0(batchReq(ics[k]))
+//@   ensures #pairsum: forall k int, j int :: {cs[k].Resources.Requests, cs[j].Resources.Requests} 0 <= k && k < j && j < len(cs) ==> val(result, apiext.BatchCPU) >= max0(batchReq(cs[k])) + max0(batchReq(cs[j]))
+//@   modifies nothing
+//@   loop 1 invariant 0 <= $i && $i <= len(cs) && milliRequestSum >= 0
+//@   loop 1 invariant $i == 0 ==> milliRequestSum == 0
+//@   loop 1 invariant $i == 1 ==> milliRequestSum == max0(batchReq(cs[0]))
+//@   loop 1 invariant $i == 2 ==> milliRequestSum == max0(batchReq(cs[0])) + max0(batchReq(cs[1]))
+//@   loop 1 invariant forall k int, j int :: {cs[k].Resources.Requests, cs[j].Resources.Requests} 0 <= k && k < j && j < $i ==> milliRequestSum >= max0(batchReq(cs[k])) + max0(batchReq(cs[j]))
+//@   loop 1 invariant forall k int :: {cs[k].Resources.Requests} 0 <= k && k < $i ==> milliRequestSum >= max0(batchReq(cs[k]))
+//@   loop 2 invariant 0 <= $i && $i <= len(ics) && milliRequestSum >= 0
+//@   loop 2 invariant len(cs) == 0 && noSidecar(ics, $i) ==> milliRequestSum == 0
+//@   loop 2 invariant len(cs) == 1 && noSidecar(ics, $i) ==> milliRequestSum == max0(batchReq(cs[0]))
+//@   loop 2 invariant len(cs) == 2 && noSidecar(ics, $i) ==> milliRequestSum == max0(batchReq(cs[0])) + max0(batchReq(cs[1]))
+//@   loop 2 invariant forall k int, j int :: {cs[k].Resources.Requests, cs[j].Resources.Requests} 0 <= k && k < j && j < len(cs) ==> milliRequestSum >= max0(batchReq(cs[k])) + max0(batchReq(cs[j]))
+//@   loop 2 invariant forall k int :: {cs[k].Resources.Requests} 0 <= k && k < len(cs) ==> milliRequestSum >= max0(batchReq(cs[k]))
+//@   loop 2 invariant forall k int :: {ics[k].Resources.Requests} 0 <= k && k < $i && isSidecar(ics[k]) ==> milliRequestSum >= max0(batchReq(ics[k]))
+
+// CPUEvict credits exactly the victim's recorded CPU usage (milli-cores, as collected into the victim info), as cpu and
+// nothing else; never negative for a non-negative recorded usage.
+//@ func (*cpuEvictor).calculateMilliReleaseByUsedThresholdPercent$1 [C11]
+//@   ensures #shape: result != nil && fresh(result) && has(result, corev1.ResourceCPU)
+//@   ensures #only: forall n corev1.ResourceName :: {has(result, n)} has(result, n) ==> n == corev1.ResourceCPU
+//@   ensures #value: 1000 * val(result, corev1.ResourceCPU) == podInfo.MilliCPUUsed && val(result, corev1.ResourceCPU).MilliValue() == podInfo.MilliCPUUsed
+//@   ensures #nonneg: podInfo.MilliCPUUsed >= 0 ==> val(result, corev1.ResourceCPU) >= 0
+//@   modifies nothing
+
+// CPUAllocatableEvict credits a victim only when the resource tier of its (defaulted) priority class is short on the node
+// (the captured set prioritiesMp); then exactly its request of that tier: one entry, keyed by the tier's cpu resource and
+// holding the amount GetRequestTypeAndValueFromPod reports for the pod (an assumed observer, see /verif/lib/C11.spec),
+// in milli units for plain cpu and in units (batch-cpu / mid-cpu are counted in milli-cores) otherwise.
+//@ func (*cpuEvictor).calculateMilliReleaseByAllocatableThresholdPercent$1 [C11]
+//@   requires apiext.rangesOK() && apiext.DefaultPriorityClass == apiext.PriorityNone     // configuration invariant of the priority bands (as in C13)
+//@   let short = has(deref($fv_prioritiesMp), apiext.podPrioDefault(podInfo.Pod))
+//@   ensures #skip: !short ==> result == nil
+//@   ensures #shape: short ==> result != nil && fresh(result) && has(result, lastresult("GetRequestTypeAndValueFromPod", 0))
+//@   ensures #only: short ==> (forall n corev1.ResourceName :: {has(result, n)} has(result, n) ==> n == lastresult("GetRequestTypeAndValueFromPod", 0))
+//@   ensures #asked: short ==> calls("GetRequestTypeAndValueFromPod") == 1
+//@   ensures #value: short ==> (lastresult("GetRequestTypeAndValueFromPod", 0) == corev1.ResourceCPU ? val(result, corev1.ResourceCPU).MilliValue() == lastresult("GetRequestTypeAndValueFromPod", 1) : val(result, lastresult("GetRequestTypeAndValueFromPod", 0)).Value() == lastresult("GetRequestTypeAndValueFromPod", 1))    // up to the rounding of MilliValue()/Value(): all the contract of ConvertInt64ToQuantity (plugins/util) gives
+//@   assert before call GetRequestFromPod: #args: $arg0 == podInfo.Pod && $arg1 == corev1.ResourceCPU
+//@   modifies nothing
